@@ -50,7 +50,7 @@ class Cx:
             self.bad(rid, key, where, detail_bad or detail_ok)
         return cond
 
-    def include(self, module, rules, rid, text, floor=None):
+    def include(self, module, rules, rid, text, floor=None, skip=()):
         """evaluate another property's module on the same facts and adopt the obligations of the given
         rules under rule id `rid` (a construct that is a necessary condition of both properties)"""
         self.rule(rid, text, floor)
@@ -58,6 +58,8 @@ class Cx:
         module.check(sub)
         for o in sub.obl:
             if o["rule"] in rules:
+                if any(x in o["key"] for x in skip):
+                    continue
                 key = o["key"].split(":", 1)[1] if ":" in o["key"] else o["key"]
                 key = "%s/%s" % (o["rule"], key)
                 if o["status"] == "ok":
